@@ -104,9 +104,10 @@ func tname(t types.Type) string {
 
 // ctx is one interpretation with its event log.
 type ctx struct {
-	in     *absint.Interp
-	events []string
-	tables []*absint.Slice // symbol tables seen by children, by event order
+	in        *absint.Interp
+	inspected []string // type assertions made on (rewritten) children
+	events    []string
+	tables    []*absint.Slice // symbol tables seen by children, by event order
 }
 
 func (e *eng) newCtx() *ctx {
@@ -127,6 +128,15 @@ func (e *eng) newCtx() *ctx {
 		return &child{name: "rw(" + ch.name + ")@" + desc}, true
 	}
 	c.in.Hooks.MapUpdate = nil
+	// a rewrite that asks what its child is: answered "not that", and remembered
+	c.in.Hooks.TypeAssert = func(in *absint.Interp, x absint.Val, asserted types.Type, commaOk bool, site ssa.Instruction) (absint.Val, bool) {
+		ch, ok := x.(*child)
+		if !ok || !commaOk {
+			return nil, false
+		}
+		c.inspected = append(c.inspected, fmt.Sprintf("%s.(%s)", ch.name, types.TypeString(asserted, func(p *types.Package) string { return p.Name() })))
+		return &absint.Tuple{E: []absint.Val{absint.Zero(asserted), absint.MkBool(false)}}, true
+	}
 	return c
 }
 
@@ -218,7 +228,9 @@ func (e *eng) structural() {
 			continue
 		}
 		got := e.render(res)
-		if got == want {
+		if len(c.inspected) > 0 {
+			e.s.Bad("S1", key, pos, fmt.Sprintf("the rewrite asks what its operand is (%s): resolving names never depends on that; a rewrite that does replaces the tree the programmer wrote by another one (a negated comparison is not the opposite comparison for NaN operands)", strings.Join(c.inspected, ", ")))
+		} else if got == want {
 			e.s.OK("S1", key, pos, got)
 		} else {
 			e.s.Bad("S1", key, pos, fmt.Sprintf("the rewritten node must be a %s whose children are the rewrites of the same children under the same table; expected %s, got %s", tn, want, got))
